@@ -144,6 +144,7 @@ int kalign_read_input(char* infile, struct msa** msa, int quiet)
         RUN(detect_aligned(m));
         RUN(set_sip_nsip(m));
         free_in_buffer(b);
+        b = NULL;
         STOP_TIMER(timer);
         if(!quiet){
                 if(infile){
@@ -169,6 +170,9 @@ int kalign_read_input(char* infile, struct msa** msa, int quiet)
 ERROR:
         if(m){
                 kalign_free_msa(m);
+        }
+        if(b){
+                free_in_buffer(b);
         }
         return FAIL;
 }
